@@ -20,7 +20,7 @@ ACCESSORS = {
     "into_iter", "next", "unwrap", "expect", "last_mut", "first_mut", "borrow_mut", "by_ref", "as_mut_ptr",
     "get_or_insert_with", "unwrap_or_else", "map", "and_then", "ok_or", "index_mut", "peekable", "peek_mut",
     "enumerate", "zip", "rev", "skip", "take", "filter", "chain", "flatten", "filter_map", "flat_map",
-    "split_first_mut", "split_last_mut", "split_at_mut", "as_deref", "iter", "last", "first",
+    "split_first_mut", "split_last_mut", "split_at_mut", "as_deref", "iter", "last", "first", "once", "chunks_mut", "windows", "fuse", "inspect",
 }
 # foreign callees that take `&mut X` and certainly do not modify X's logical content
 READONLY_MUT = {"len", "is_empty", "get", "contains", "contains_key", "iter", "clone", "as_ref", "as_slice", "as_str", "fmt"}
